@@ -147,6 +147,19 @@ def run_for_flags_merged(frame, st, flags):
         if not (isinstance(stn, ast.AugAssign) and isinstance(stn.op, (ast.BitOr, ast.Add, ast.BitAnd))
                 and isinstance(stn.target, ast.Name)):
             return False
+    # accumulators updated only by  acc |= <int>  are kept as guarded bit sets {bit: condition} (exact, and far simpler
+    # for the solver than nested integer expressions); everything else is merged with if-then-else terms
+    or_only = {}
+    for stn in st.body:
+        if isinstance(stn.op, ast.BitOr):
+            or_only.setdefault(stn.target.id, True)
+        else:
+            or_only[stn.target.id] = False
+    bitsets = {}
+    for n, flag_ok in or_only.items():
+        cur = frame.env.get(n)
+        if flag_ok and isinstance(cur, int) and not isinstance(cur, bool) and cur >= 0:
+            bitsets[n] = {b: z3.BoolVal(True) for b in range(cur.bit_length()) if (cur >> b) & 1}
     for m in list(flags.cls):
         if m not in flags.bits:
             continue
@@ -154,6 +167,8 @@ def run_for_flags_merged(frame, st, flags):
         if z3.is_false(g):
             continue
         before = {n: frame.env.get(n) for n in body_names}
+        for n in bitsets:
+            frame.env[n] = 0                     # measure the contribution of this member alone
         frame.assign(st.target, m)
         with P.scope():
             P.assume(g)
@@ -163,11 +178,25 @@ def run_for_flags_merged(frame, st, flags):
                 raise E.Unsupported('guarded set iteration: body may raise')
         for n in body_names:
             new, old = frame.env.get(n), before[n]
+            if n in bitsets:
+                if not (isinstance(new, int) and not isinstance(new, bool) and new >= 0):
+                    raise E.Unsupported('guarded set iteration: |= of a non-constant')
+                for b in range(new.bit_length()):
+                    if (new >> b) & 1:
+                        c = bitsets[n].get(b)
+                        bitsets[n][b] = g if c is None else z3.Or(c, g)
+                frame.env[n] = old
+                continue
             if new is old:
                 continue
             if not (ops.is_intlike(new) and ops.is_intlike(old)):
                 raise E.Unsupported('guarded set iteration: non-integer accumulator %s' % n)
             frame.env[n] = ops.wrap_int(V.ite(g, ops.as_int(new), ops.as_int(old)))
+    for n, bits in bitsets.items():
+        total = z3.IntVal(0)
+        for b, c in sorted(bits.items()):
+            total = total + z3.If(c, z3.IntVal(2 ** b), z3.IntVal(0))
+        frame.env[n] = ops.wrap_int(total)
     return True
 
 
